@@ -7,6 +7,7 @@ import (
 	"net"
 	"os"
 	"testing"
+	"testing/synctest"
 	"time"
 
 	"github.com/scrapli/scrapligo/transport"
@@ -25,14 +26,25 @@ const (
 	ga   = 249
 )
 
-// memConn is an in-memory net.Conn: Read hands out the script one byte at a time; a negative
-// entry is a pause (read timeout); after the script every read times out.
+// memConn is an in-memory net.Conn fed by a script: an entry >= 0 is a byte; cut ends a TCP segment (a Read
+// never returns bytes of two segments); pause is a silence longer than any read deadline (the read times
+// out); gap(ms) is a silence of that many milliseconds on the clock (virtual inside a synctest bubble),
+// which times the read out only if the deadline set by the code under test falls inside it. After the
+// script every read times out.
 type memConn struct {
-	script []int
-	pos    int
-	wrote  []byte
-	reads  int
+	script   []int
+	pos      int
+	wrote    []byte
+	reads    int
+	deadline time.Time
 }
+
+const (
+	pause = -1
+	cut   = -2
+)
+
+func gap(ms int) int { return -1000 - ms }
 
 type timeoutErr struct{}
 
@@ -45,11 +57,29 @@ func (c *memConn) Read(b []byte) (int, error) {
 	if c.reads > 100000 {
 		panic("memConn: read loop does not terminate")
 	}
-	if c.pos >= len(c.script) || c.script[c.pos] < 0 {
+	tmo := &net.OpError{Op: "read", Net: "tcp", Err: os.ErrDeadlineExceeded}
+	for c.pos < len(c.script) && c.script[c.pos] == cut {
+		c.pos++
+	}
+	if c.pos < len(c.script) && c.script[c.pos] <= -1000 {
+		g := time.Duration(-c.script[c.pos]-1000) * time.Millisecond
+		if !c.deadline.IsZero() {
+			if left := time.Until(c.deadline); left <= g {
+				if left > 0 {
+					time.Sleep(left)
+					c.script[c.pos] = gap(int((g - left) / time.Millisecond))
+				}
+				return 0, tmo
+			}
+		}
+		time.Sleep(g)
+		c.pos++
+	}
+	if c.pos >= len(c.script) || c.script[c.pos] == pause {
 		if c.pos < len(c.script) {
 			c.pos++
 		}
-		return 0, &net.OpError{Op: "read", Net: "tcp", Err: os.ErrDeadlineExceeded}
+		return 0, tmo
 	}
 	n := 0
 	for n < len(b) && c.pos < len(c.script) && c.script[c.pos] >= 0 {
@@ -59,13 +89,13 @@ func (c *memConn) Read(b []byte) (int, error) {
 	}
 	return n, nil
 }
-func (c *memConn) Write(b []byte) (int, error)      { c.wrote = append(c.wrote, b...); return len(b), nil }
-func (c *memConn) Close() error                     { return nil }
-func (c *memConn) LocalAddr() net.Addr              { return nil }
-func (c *memConn) RemoteAddr() net.Addr             { return nil }
-func (c *memConn) SetDeadline(time.Time) error      { return nil }
-func (c *memConn) SetReadDeadline(time.Time) error  { return nil }
-func (c *memConn) SetWriteDeadline(time.Time) error { return nil }
+func (c *memConn) Write(b []byte) (int, error)       { c.wrote = append(c.wrote, b...); return len(b), nil }
+func (c *memConn) Close() error                      { return nil }
+func (c *memConn) LocalAddr() net.Addr               { return nil }
+func (c *memConn) RemoteAddr() net.Addr              { return nil }
+func (c *memConn) SetDeadline(time.Time) error       { return nil }
+func (c *memConn) SetReadDeadline(t time.Time) error { c.deadline = t; return nil }
+func (c *memConn) SetWriteDeadline(time.Time) error  { return nil }
 
 var items = [][]byte{
 	{iac, do, sga}, {iac, do, 1}, {iac, do, 31},
@@ -145,17 +175,49 @@ func run(script []int) (wrote, got []byte, err error, pan string) {
 	return c.wrote, got, nil, ""
 }
 
+// mark inserts a script entry (pause, cut, gap) before byte at.
+type mark struct{ at, what int }
+
 func check(w *sched.W, seq []int, name string, in []byte, pauseAt int) {
-	script := make([]int, 0, len(in)+1)
+	var m []mark
+	if pauseAt >= 0 {
+		m = []mark{{pauseAt, pause}}
+	}
+	checkM(w, name, in, m)
+}
+
+func checkM(w *sched.W, name string, in []byte, marks []mark) {
+	script := make([]int, 0, len(in)+len(marks))
+	timed := false
+	ms := ""
 	for i, b := range in {
-		if i == pauseAt {
-			script = append(script, -1)
+		for _, m := range marks {
+			if m.at == i {
+				script = append(script, m.what)
+				switch {
+				case m.what == pause:
+					ms += fmt.Sprintf(" pause@%d", i)
+				case m.what == cut:
+					ms += fmt.Sprintf(" cut@%d", i)
+				default:
+					ms += fmt.Sprintf(" gap%dms@%d", -m.what-1000, i)
+					timed = true
+				}
+			}
 		}
 		script = append(script, int(b))
 	}
 	wantR, wantD, wellFormed := reference(in)
-	wrote, got, err, pan := run(script)
-	cse := fmt.Sprintf("%s pause@%d bytes=%v", name, pauseAt, in)
+	var wrote, got []byte
+	var err error
+	var pan string
+	if timed {
+		// the gaps are waited out on the virtual clock of a bubble
+		synctest.Test(w.T, func(*testing.T) { wrote, got, err, pan = run(script) })
+	} else {
+		wrote, got, err, pan = run(script)
+	}
+	cse := fmt.Sprintf("%s%s bytes=%v", name, ms, in)
 	nt := ""
 	if wellFormed {
 		nt = cse
@@ -223,6 +285,79 @@ func itemScenario(first, k int) sched.Scenario {
 	}}
 }
 
+// segScenario: every opening of up to k items x every way of ending a TCP segment at one or two places
+// inside it (the code under test may read more than one byte at a time).
+func segScenario(first, k int) sched.Scenario {
+	return sched.Scenario{Name: fmt.Sprintf("segments/k=%d/first=%s", k, itemNames[first]), Run: func(w *sched.W) {
+		seq := make([]int, k)
+		seq[0] = first
+		var rec func(i int)
+		rec = func(i int) {
+			var in []byte
+			name := ""
+			for _, it := range seq[:i] {
+				in = append(in, items[it]...)
+				name += itemNames[it] + " "
+			}
+			for a := 1; a < len(in); a++ {
+				checkM(w, name, in, []mark{{a, cut}})
+				if i <= 3 {
+					for b := a + 1; b < len(in); b++ {
+						checkM(w, name, in, []mark{{a, cut}, {b, cut}})
+					}
+				}
+			}
+			if i == k {
+				return
+			}
+			for it := range items {
+				seq[i] = it
+				rec(i + 1)
+			}
+		}
+		rec(1)
+	}}
+}
+
+// timedScenario: openings of up to 3 items that trickle in: up to three silences of 0.4 x the socket timeout
+// (each shorter than the per-read wait of half the socket timeout, together longer than it) at every
+// combination of byte boundaries. The negotiation phase must not end while the server keeps talking.
+func timedScenario(first int) sched.Scenario {
+	return sched.Scenario{Name: "timed/first=" + itemNames[first], Run: func(w *sched.W) {
+		const k = 3
+		seq := make([]int, k)
+		seq[0] = first
+		var rec func(i int)
+		rec = func(i int) {
+			var in []byte
+			name := ""
+			for _, it := range seq[:i] {
+				in = append(in, items[it]...)
+				name += itemNames[it] + " "
+			}
+			g := gap(160) // socket timeout 400ms: first wait 100ms, later waits 200ms
+			n := len(in)
+			for a := 1; a < n; a++ {
+				checkM(w, name, in, []mark{{a, g}})
+				for b := a + 1; b < n; b++ {
+					checkM(w, name, in, []mark{{a, g}, {b, g}})
+					for c := b + 1; c < n; c++ {
+						checkM(w, name, in, []mark{{a, g}, {b, g}, {c, g}})
+					}
+				}
+			}
+			if i == k {
+				return
+			}
+			for it := range items {
+				seq[i] = it
+				rec(i + 1)
+			}
+		}
+		rec(1)
+	}}
+}
+
 var rawSigma = []byte{iac, do, will, sga, nop, 'a'}
 
 func rawScenario(first byte, n int) sched.Scenario {
@@ -256,6 +391,9 @@ func scenarios(tier string) []sched.Scenario {
 	for _, c := range rawSigma {
 		out = append(out, rawScenario(c, n))
 	}
+	for it := range items {
+		out = append(out, segScenario(it, k-1), timedScenario(it))
+	}
 	out = append(out, sched.Scenario{Name: "empty", Run: func(w *sched.W) { check(w, nil, "empty", nil, -1) }})
 	return out
 }
@@ -264,8 +402,8 @@ func TestCheck(t *testing.T) {
 	sched.Main(t, sched.Check{
 		ID:          "C15",
 		Level:       "exploration",
-		Rule:        "every sequence of up to k items over {IAC verb opt for 4 verbs x 3 options, IAC NOP, IAC GA, IAC IAC, data 'a', LF} (k=5 quick, 6 thorough) and every byte string over {IAC, DO, WILL, SGA, NOP, 'a'} up to length 7 (9), fed one byte per read through the real negotiation code (transport.Telnet over an in-memory net.Conn), plus a read timeout at every boundary whose remainder is pure data; compared with an RFC 854 reference parser (replies written, bytes returned by the reads after open); distinct_nontrivial = distinct well-formed openings",
-		Assumptions: []string{"the parser reads one byte at a time, so TCP segmentation is only visible to it as time; pauses are injected only where the remainder is pure data", "sub-negotiation (IAC SB) is outside the alphabet"},
+		Rule:        "every sequence of up to k items over {IAC verb opt for 4 verbs x 3 options, IAC NOP, IAC GA, IAC IAC, data 'a', LF} (k=5 quick, 6 thorough) and every byte string over {IAC, DO, WILL, SGA, NOP, 'a'} up to length 7 (9), fed through the real negotiation code (transport.Telnet over an in-memory net.Conn), plus a read timeout at every boundary whose remainder is pure data; every opening of up to k-1 items x every single (and, up to 3 items, double) TCP segment boundary; every opening of up to 3 items x every placement of up to three silences of 0.4 x the socket timeout on a virtual clock (testing/synctest); compared with an RFC 854 reference parser (replies written, bytes returned by the reads after open); distinct_nontrivial = distinct well-formed openings",
+		Assumptions: []string{"the negotiation phase lasts while the gaps between bytes stay below half the socket timeout (a quarter before the first byte); timeouts are injected only where the remainder is pure data", "sub-negotiation (IAC SB) is outside the alphabet"},
 		Scenarios:   scenarios,
 		Budget:      map[string]time.Duration{"quick": 4 * time.Minute, "thorough": 30 * time.Minute},
 		NoIsolation: false,
